@@ -11,3 +11,13 @@ impl PublicKey {
 /// is proved on the real function by Kani unit U-dir
 pub uninterp spec fn dir_is_accept(me: PublicKey, other: PublicKey) -> bool;
 
+
+/// iroh `PublicKey::from_bytes`: decodes 32 key bytes or fails; a decoded key has exactly these bytes
+#[verifier::external_body]
+pub struct KeyParsingError { _p: u8 }
+impl PublicKey {
+    #[verifier::external_body]
+    pub fn from_bytes(bytes: &[u8; 32]) -> (r: std::result::Result<PublicKey, KeyParsingError>)
+        ensures r is Ok ==> r->Ok_0.0 == *bytes
+    { unimplemented!() }
+}
